@@ -1,5 +1,6 @@
 """C05 — XPath evaluation: the dispatch tables the evaluator is built from (narrow claim)."""
 import e1
+import enumflow
 from common import Finding, Result
 from facts import BrokenCheck, walk
 from props import c07, c08, c14
@@ -81,30 +82,31 @@ def run(facts, tier):
         res.oblige(1, ok)
         if not ok:
             res.add(Finding("C05-axis", v, "axis %s is evaluated with %s, expected %s" % (v, got, fn_ or "the context node itself"), f["file"], f["line"], {}))
-    # ---- reverse set: the match that reverses
+    # ---- reverse set: for which axes is `.reverse()` on the candidate list reached (enumflow: match arms, matches!,
+    #      boolean locals and helper predicates over the axis are all decided over the finite set of axes)
     st2 = res.rule("C05-reverse", instances=0)
-    rev = None
-    matches = [n for n in walk(f["body"]) if n.get("k") == "Match" and n.get("src") == "Normal" and "model::AxisName" in str(n.get("scrutty", ""))]
-    for n in matches:
-        for arm in n["arms"]:
-            if any(m.get("k") == "MethodCall" and m["m"] == "reverse" for m in walk(arm["body"])):
-                rev = set(variants_of_pat(arm["pat"]))
+    try:
+        dom = enumflow.Domain(facts, "model::AxisSpecifier", "model::AxisName", "Name")
+        hits = enumflow.Flow(dom, f).run(lambda n: n.get("k") == "MethodCall" and n.get("m") == "reverse"
+                                         and "xml_dom::XmlNode" in str(n.get("recvty", "")))
+    except enumflow.Unknown as u:
+        raise BrokenCheck("C05-reverse: %s" % u)
+    rev = set()
+    for _, s_ in hits:
+        rev |= s_
     st2["instances"] += 1
-    ok = rev == REVERSE_AXES
+    ok = bool(hits) and rev - {"Abbreviated"} == REVERSE_AXES
     res.oblige(1, ok)
+    res.sample({"rule": "C05-reverse", "reverse_sites": len(hits), "axes": sorted(rev)})
     if not ok:
         res.add(Finding("C05-reverse", "set", "proximity positions are reversed for %s, XPath 1.0 2.4 defines the reverse axes as %s"
-                        % (sorted(rev) if rev else None, sorted(REVERSE_AXES)), f["file"], f["line"], {}))
-    # abbreviated axes are forward axes: no reverse in the Abbreviated arm
-    for n in walk(f["body"]):
-        if n.get("k") == "Match" and "AxisSpecifier" in str(n.get("scrutty", "")):
-            for arm in n["arms"]:
-                if "Abbreviated" in variants_of_pat(arm["pat"]):
-                    st2["instances"] += 1
-                    bad = any(m.get("k") == "MethodCall" and m["m"] == "reverse" for m in walk(arm["body"]))
-                    res.oblige(1, not bad)
-                    if bad:
-                        res.add(Finding("C05-reverse", "abbreviated", "an abbreviated step (child / attribute) is treated as a reverse axis", f["file"], arm.get("ln"), {}))
+                        % (sorted(rev - {"Abbreviated"}) if rev else None, sorted(REVERSE_AXES)), f["file"], f["line"], {}))
+    # abbreviated axes are forward axes
+    st2["instances"] += 1
+    bad = "Abbreviated" in rev
+    res.oblige(1, not bad)
+    if bad:
+        res.add(Finding("C05-reverse", "abbreviated", "an abbreviated step (child / attribute) is treated as a reverse axis", f["file"], f["line"], {}))
     # ---- axis function shapes
     st3 = res.rule("C05-shape", instances=0)
     for path, (must, must_not) in AXIS_SHAPE.items():
